@@ -216,8 +216,14 @@ def sha1(b):
 
 
 def ripemd160(b):
-    from bitcoin.core.contrib.ripemd160 import ripemd160 as r
-    return r(bytes(b))
+    # the reference is the C implementation behind hashlib where the interpreter has one (independent of the library's
+    # own pure-Python bitcoin.core.contrib.ripemd160, which is code under test); the library's copy only as a fallback
+    import hashlib
+    try:
+        return hashlib.new('ripemd160', bytes(b)).digest()
+    except Exception:
+        from bitcoin.core.contrib.ripemd160 import ripemd160 as r
+        return r(bytes(b))
 
 
 def hash256(b):
